@@ -349,6 +349,7 @@ class P12(CrashPlan):
 @register
 class P13(CrashPlan):
     prop = "C13"
+    level = "exploration"
     monitor = staticmethod(timing.c13)
     persistent = None
     conts = CONT_CLEAN + CONT_PERS[:2]
